@@ -464,6 +464,12 @@ func (cc *connectStreamingClientConn) Receive(msg any) error {
 	// converting the bytes to a message, an error reading from the network, or
 	// just an EOF. We're going to return it to the user, but we also want to
 	// setResponseError so Send errors out.
+	// A Connect streaming response always ends with an end-of-stream envelope.
+	// If the body ended without one, the response was cut short: report that
+	// instead of letting the bare io.EOF look like a clean end of stream.
+	if errors.Is(err, io.EOF) && !errors.Is(err, errSpecialEnvelope) {
+		err = errorf(CodeInternal, "protocol error: %w", io.ErrUnexpectedEOF)
+	}
 	cc.duplexCall.SetError(err)
 	return err
 }
